@@ -191,7 +191,10 @@ func main() {
 	res.Distinct("unsupported-network")
 	{
 		var b1, b2 net.Addr
-		p, msg := vlib.Catch(func() { b1 = socket.SockaddrToTCPOrUnixAddr(nil); b2 = socket.SockaddrToUDPAddr(&unix.SockaddrUnix{Name: "/x"}) })
+		p, msg := vlib.Catch(func() {
+			b1 = socket.SockaddrToTCPOrUnixAddr(nil)
+			b2 = socket.SockaddrToUDPAddr(&unix.SockaddrUnix{Name: "/x"})
+		})
 		evals++
 		if p {
 			res.Violate("C17 sockaddr conversion panic nil-sockaddr", msg, nil)
